@@ -295,6 +295,11 @@ example : sample.wf = true := by decide
 example : (renderMin 1 sample).length = 32 ∧ (renderFull sample).length = 48 := by decide
 example : (parseToks (renderMin 1 sample)).dump = some (dumpExpr (toExpr sample)) := by decide +kernel
 
+/-- non-vacuity of the hypothesis `hts` of `parse_render_anypos`: the tokens of the minimal
+    rendering moved to other positions still agree with it up to positions -/
+example : ((renderMin 1 sample).map fun t => ({ t with pos := t.pos + 5 } : Token)).map Token.erase
+    = render (fun _ => false) 1 sample := by decide +kernel
+
 /-- the same instance from program TEXT, through the real lexer (positions erased): the minimal
     and the fully parenthesised spelling give the tree `toExpr sample` -/
 def dumpSrc (src : Bytes) : Option Bytes :=
@@ -334,6 +339,10 @@ theorem left_assoc (o₁ o₂ : BinOp) (h : o₁.level = o₂.level) (x y z : PE
       Pratt.wrapAt_ge _ _ _ (by omega), h]
   rw [← hr]
   exact parse_render _ (by simp [PE.wf, hx, hy, hz])
+
+/-- (hypothesis `h` of `left_assoc`: e.g. `+` and `-` share a level; `left_assoc_atoms` below is
+    the instance `o₁ = o₂`) -/
+example : BinOp.add.level = BinOp.sub.level := by decide
 
 /-- C06 (left to right), the plain instance: `a o b o c` is `(a o b) o c` for every binary
     operator `o` -/
